@@ -88,6 +88,21 @@ type caseIn struct {
 	Fund    string `json:"fund"`   // initial balance of each account in each denom
 	Ops     []opIn `json:"ops"`
 	Est     bool   `json:"est"` // record estimates around swaps (C03)
+	// Math: when non-empty the case is a list of direct calls of x/concentrated-liquidity/math functions (no chain is set up)
+	Math []mathIn `json:"math,omitempty"`
+}
+
+// one direct call: F = amount0 | amount1 | next0in | next0out | next1in | next1out | liq0 | liq1 | liqfrom | tick2sqrt | sqrt2tick
+// X = liquidity (raw Dec) or amount; A, B, C = sqrt prices (raw BigDec); Ru = roundUp; T = tick
+type mathIn struct {
+	F  string `json:"f"`
+	X  string `json:"x"`
+	Y  string `json:"y"`
+	A  string `json:"a"`
+	B  string `json:"b"`
+	C  string `json:"c"`
+	Ru bool   `json:"ru"`
+	T  int64  `json:"t"`
 }
 
 // ---------------------------------------------------------------------------------------------
@@ -151,6 +166,58 @@ type obsOut struct {
 	Init  obsStep   `json:"init"`
 	Steps []obsStep `json:"steps"`
 	Fatal string    `json:"fatal,omitempty"`
+	Math  [][]string `json:"math,omitempty"` // per call: ["1", result] or ["0", "0"] (error / panic)
+}
+
+func bigRaw(s string) osmomath.BigDec {
+	v, ok := new(big.Int).SetString(s, 10)
+	if !ok {
+		panic("bad bigdec mantissa " + s)
+	}
+	return osmomath.NewBigDecFromBigIntWithPrec(v, 36)
+}
+
+func runMath(m mathIn) (res []string) {
+	res = []string{"0", "0"}
+	defer func() {
+		if r := recover(); r != nil {
+			res = []string{"0", "0"}
+		}
+	}()
+	ok := func(v string) []string { return []string{"1", v} }
+	switch m.F {
+	case "amount0":
+		return ok(rawBig(clmath.CalcAmount0Delta(decRaw(m.X), bigRaw(m.A), bigRaw(m.B), m.Ru)))
+	case "amount1":
+		return ok(rawBig(clmath.CalcAmount1Delta(decRaw(m.X), bigRaw(m.A), bigRaw(m.B), m.Ru)))
+	case "next0in":
+		return ok(rawBig(clmath.GetNextSqrtPriceFromAmount0InRoundingUp(bigRaw(m.A), bigRaw(m.X), bigRaw(m.Y))))
+	case "next0out":
+		return ok(rawBig(clmath.GetNextSqrtPriceFromAmount0OutRoundingUp(bigRaw(m.A), bigRaw(m.X), decRaw(m.Y))))
+	case "next1in":
+		return ok(rawBig(clmath.GetNextSqrtPriceFromAmount1InRoundingDown(bigRaw(m.A), decRaw(m.X), bigRaw(m.Y))))
+	case "next1out":
+		return ok(rawBig(clmath.GetNextSqrtPriceFromAmount1OutRoundingDown(bigRaw(m.A), decRaw(m.X), bigRaw(m.Y))))
+	case "liq0":
+		return ok(rawDec(clmath.Liquidity0(bi(m.X), bigRaw(m.A), bigRaw(m.B))))
+	case "liq1":
+		return ok(rawDec(clmath.Liquidity1(bi(m.X), bigRaw(m.A), bigRaw(m.B))))
+	case "liqfrom":
+		return ok(rawDec(clmath.GetLiquidityFromAmounts(bigRaw(m.C), bigRaw(m.A), bigRaw(m.B), bi(m.X), bi(m.Y))))
+	case "tick2sqrt":
+		v, err := clmath.TickToSqrtPrice(m.T)
+		if err != nil {
+			return
+		}
+		return ok(rawBig(v))
+	case "sqrt2tick":
+		v, err := clmath.CalculateSqrtPriceToTick(bigRaw(m.A))
+		if err != nil {
+			return
+		}
+		return ok(fmt.Sprint(v))
+	}
+	return
 }
 
 // ---------------------------------------------------------------------------------------------
@@ -730,6 +797,12 @@ func runCase(t *testing.T, c caseIn) (out obsOut) {
 			out.Fatal = fmt.Sprintf("driver panic: %v", r)
 		}
 	}()
+	if len(c.Math) > 0 {
+		for _, m := range c.Math {
+			out.Math = append(out.Math, runMath(m))
+		}
+		return out
+	}
 	h := apph.New(t)
 	w := &world{h: h, d0: c.Denom0, d1: c.Denom1}
 	w.accs = h.TestAccs[:3]
